@@ -30,7 +30,13 @@ type SliceV struct {
 	Off, Len, Cap int
 }
 
-type StringV struct{ B []*term.Term }
+// StringV is an immutable byte string. Alias != 0 marks a string that was produced by reinterpreting the header
+// of the byte slice backed by heap object Alias (unsafe): its bytes are a snapshot, the mark lets a harness assert
+// that no such string escapes (vAliases).
+type StringV struct {
+	B     []*term.Term
+	Alias int
+}
 
 // IfaceV is an interface value with a concrete dynamic type; T==nil is the nil interface.
 type IfaceV struct {
